@@ -762,6 +762,9 @@ func runC16(c *CaseCtx) *CaseResult {
 			switch k % 3 {
 			case 0: // one failing storable: encode error while other workers are mid-job
 				bad := uint64(1 + r.Intn(nblobs))
+				if r.Intn(3) != 0 {
+					bad = uint64(1 + r.Intn(nblobs/2)) // ids up to nblobs/2 also sit in map data slabs
+				}
 				blobEncodeHook.Store(func(id uint64) error {
 					if id == bad {
 						return ErrBlob
@@ -801,6 +804,36 @@ func runC16(c *CaseCtx) *CaseResult {
 					}
 				}
 				res.Obs["encode-error-scenarios"]++
+				// POOL PROBE: whatever the failed commit took from the process-wide pools must have gone back exactly once.
+				// Straight after the failure (before a garbage collection empties the pools) two many-worker commits of a
+				// fresh state run with yields inside Encode, so that encoder goroutines hold buffers while others start;
+				// a buffer handed out twice shows as a race report or as registers that differ from the sequential reference.
+				for _, rel := range []bool{true, false} {
+					wp, _, err := c16State(stateSeed^0x5a5a, 90)
+					if err != nil {
+						return fail(err)
+					}
+					want, err := sequentialCommit(wp.ps, wp.led.Snapshot())
+					if err != nil {
+						return fail(err)
+					}
+					blobEncodeHook.Store(jitterHook(r, &mu, 2))
+					wp.led.inCommit = true
+					if rel {
+						err = wp.ps.NondeterministicFastCommit(16)
+					} else {
+						err = wp.ps.FastCommit(16)
+					}
+					wp.led.inCommit = false
+					blobEncodeHook.Store((func(uint64) error)(nil))
+					if err != nil {
+						return fail(viol("parallel-commit", "a 16-worker commit right after an encoding failure elsewhere in the process failed: %v", err))
+					}
+					if regsDigest(wp.led.Snapshot()) != regsDigest(want) {
+						return fail(viol("parallel-commit", "a 16-worker commit (relaxed %v) right after an encoding failure elsewhere in the process differs from the sequential reference: %v", rel, diffRegs(want, wp.led.Snapshot())))
+					}
+					res.Obs["pool-probes-after-encode-errors"]++
+				}
 			case 1: // ledger failure on the k-th store while workers may still be encoding
 				// the sequential reference is computed from the write set BEFORE the failing commit
 				want, err := sequentialCommit(w.ps, w.led.Snapshot())
